@@ -307,11 +307,10 @@ def check_ref(ctx, rf):
     repo = ctx.repo
     rule = 'C08-ref'
     w = repo.walker()
-    m = rf.methods
+    from ..model import ref_strategies
+    m = ref_strategies(repo)
     # referencing a packet
-    fi = m.get('_unpack_referencing_a_packet')
-    if fi is None:
-        raise Undecided('anchor Ref._unpack_referencing_a_packet not found')
+    fi = m['unpack_packet']
     for p in w.paths(fi.node, cls=rf):
         st_ = [e for e in p.effects if e.kind == 'setattr' and canon(e.name) == 'self.field_name']
         r = p.ret()
@@ -321,7 +320,7 @@ def check_ref(ctx, rf):
             ctx.holds(rule, fi, 'p = proto_class(_initialize_fields=False); store p; return p.unpack_impl(**k)', 'nested packet parsed at the cursor, its cursor returned', fi.node.lineno, clause='f')
         else:
             ctx.violation(rule, fi, 'store %s; return %s' % ([canon(e.value) for e in st_], canon(r) if r is not None else None), 'a reference must parse a new instance of the referenced class with the caller\'s (raw, offset, **k) and return its cursor', fi.node.lineno, clause='f')
-    fi = m.get('_pack_referencing_a_packet')
+    fi = m['pack_packet']
     for p in w.paths(fi.node, cls=rf):
         r = p.ret()
         want = canon(ast.parse('getattr(pkt, self.field_name).pack_impl(fragments=fragments, **k)', mode='eval').body)
@@ -330,7 +329,7 @@ def check_ref(ctx, rf):
         else:
             ctx.violation(rule, fi, 'return %s' % (canon(r) if r is not None else None), 'expected the stored packet to pack itself into the same buffer', fi.node.lineno, clause='f')
     # through a callable
-    fi = m.get('_unpack_using_callable')
+    fi = m['unpack_callable']
     sel = 'self.prototype(**k, offset=offset, pkt=pkt, raw=raw)'
     seen = set()
     for p in w.paths(fi.node, cls=rf):
@@ -356,8 +355,8 @@ def check_ref(ctx, rf):
             else:
                 ctx.violation(rule, fi, 'selector -> Packet: store %s; return %s' % ([canon(e.value)[:60] for e in st_], canon(r)[:100] if r is not None else None), 'the packet stored must be the one parsed at (raw, offset) and its cursor returned', fi.node.lineno, clause='f')
     if seen != {'field', 'packet'}:
-        ctx.violation(rule, fi, 'Ref._unpack_using_callable', 'expected a Field path and a Packet path after calling the selector with (pkt, raw, offset, **k); found %s' % sorted(seen), fi.node.lineno, clause='f')
-    fi = m.get('_pack_with_callable')
+        ctx.violation(rule, fi, 'Ref: unpack through a selector', 'expected a Field path and a Packet path after calling the selector with (pkt, raw, offset, **k); found %s' % sorted(seen), fi.node.lineno, clause='f')
+    fi = m['pack_callable']
     seen = set()
     GETV = canon(ast.parse('getattr(pkt, self.field_name)', mode='eval').body)
     for p in w.paths(fi.node, cls=rf):
@@ -377,7 +376,7 @@ def check_ref(ctx, rf):
             else:
                 ctx.violation(rule, fi, 'other value: %s; return %s' % ([e.text()[:60] for e in selp], canon(r)[:80] if r is not None else None), 'a non-packet value must be packed by the field the selector returns when called with packing=True', fi.node.lineno, clause='f')
     if seen != {'field', 'packet'}:
-        ctx.violation(rule, fi, 'Ref._pack_with_callable', 'expected a Packet path and a selector path; found %s' % sorted(seen), fi.node.lineno, clause='f')
+        ctx.violation(rule, fi, 'Ref: pack through a selector', 'expected a Packet path and a selector path; found %s' % sorted(seen), fi.node.lineno, clause='f')
 
 
 def check_normalisers(ctx):
@@ -583,7 +582,7 @@ def check_late_binding(ctx):
 def check(ctx):
     repo = ctx.repo
     sq, op, rf = repo.cls('Sequence'), repo.cls('Optional'), repo.cls('Ref')
-    for ci, names in ((sq, ('unpack', 'pack')), (op, ('unpack', 'pack')), (rf, ('_unpack_using_callable', '_pack_with_callable', '_unpack_referencing_a_packet', '_pack_referencing_a_packet'))):
+    for ci, names in ((sq, ('unpack', 'pack')), (op, ('unpack', 'pack'))):
         for n in names:
             if n not in ci.methods:
                 raise Undecided('anchor %s.%s not found' % (ci.name, n))
